@@ -175,20 +175,55 @@ func c20Die(p *Program, r *Report) {
 		r.Unresolved("Scheduler.Clear")
 		return
 	}
-	g := p.ig(clr)
+	g := p.igx(clr) // a per-entry removal helper shared with Cancel stays part of the loop body
+	defer p.withGraph(g)()
 	del := nodesWhere(g, func(in ssa.Instruction) bool {
 		c := callOf(in)
 		return c != nil && c.StaticCallee() != nil && c.StaticCallee().Name() == "DeleteJob"
 	})
-	ok, why := g.loopExactlyOnce(del)
+	tbl := "field:" + s.T.Obj().Name() + "." + s.Keys.Name()
+	// a lookup of the table with the key currently iterated from the same table cannot miss: its not-found edge is infeasible
+	infeasible := map[edge]bool{}
+	for _, in := range g.Nodes {
+		if lk, isL := in.(*ssa.Lookup); isL && lk.CommaOk {
+			if f, _ := fieldLoad(lk.X); f == s.Keys && anyContains(p.origins(lk.Index), "next<-range<-"+tbl) {
+				_, missing := g.okEdgesLookup(lk)
+				for e := range missing {
+					infeasible[e] = true
+				}
+			}
+		}
+	}
+	ok, why := g.loopExactlyOnceA(del, infeasible)
 	for n := range del {
 		c := callOf(g.Nodes[n])
-		if !anyContains(p.origins(c.Args[1]), "next<-range<-field:"+s.T.Obj().Name()+"."+s.Keys.Name()) {
+		o := p.origins(c.Args[1])
+		// the iterated value itself, or the table entry looked up with the iterated key
+		direct := anyContains(o, "next<-range<-"+tbl)
+		viaKey := false
+		if lk := lookupOf(c.Args[1]); lk != nil {
+			if f, _ := fieldLoad(lk.X); f == s.Keys && anyContains(p.origins(lk.Index), "next<-range<-"+tbl) {
+				viaKey = true
+			}
+		}
+		if !direct && !viaKey {
 			ok = false
 			why = "the deleted key is not the iterated table entry"
 		}
 	}
 	r.Check(ok, "Clear deletes every recorded job", firstPos(g, del), "one DeleteJob(recorded key) per entry of the key table, loop never left early "+why)
+}
+
+// lookupOf: v is (the value of) a map lookup.
+func lookupOf(v ssa.Value) *ssa.Lookup {
+	switch x := strip(v).(type) {
+	case *ssa.Lookup:
+		return x
+	case *ssa.Extract:
+		lk, _ := x.Tuple.(*ssa.Lookup)
+		return lk
+	}
+	return nil
 }
 
 func c20Keys(p *Program, r *Report) {
@@ -255,11 +290,11 @@ func c20Keys(p *Program, r *Report) {
 	can := p.methodNamed(s.T, "Cancel")
 	okC := can != nil
 	if can != nil {
-		cg := p.ig(can)
+		cg := p.igx(can)
 		var lk *ssa.Lookup
 		for _, in := range cg.Nodes {
 			if l, isL := in.(*ssa.Lookup); isL && l.CommaOk {
-				if f, _ := fieldLoad(l.X); f == s.Keys && strip(l.Index) == ssa.Value(can.Params[1]) {
+				if f, _ := fieldLoad(l.X); f == s.Keys && cg.res(l.Index) == ssa.Value(can.Params[1]) {
 					lk = l
 				}
 			}
@@ -279,8 +314,10 @@ func c20Keys(p *Program, r *Report) {
 			found, _ := cg.okEdgesLookup(lk)
 			forget := map[int]bool{}
 			for _, a := range p.fieldAccesses(map[*types.Var]bool{s.Keys: true}) {
-				if a.Fn == can && a.Kind == "delete" {
-					forget[a.Node] = true
+				if a.Kind == "delete" {
+					if n, in := cg.Idx[a.In]; in {
+						forget[n] = true
+					}
 				}
 			}
 			if len(found) == 0 || len(dels) == 0 || len(forget) == 0 {
@@ -390,9 +427,10 @@ func c20Reject(p *Program, r *Report) {
 		r.Unresolved("Scheduler.Cancel")
 		return
 	}
-	cg := p.ig(can)
+	cg := p.igx(can)
+	defer p.withGraph(cg)()
 	notFound := map[edge]bool{}
-	for _, ifi := range ifsOf(can) {
+	for _, ifi := range cg.ifs() {
 		for _, outcome := range []bool{true, false} {
 			f, okf := condFact(ifi.Cond, outcome)
 			if okf && f.Bool && f.Op == token.EQL {
